@@ -160,6 +160,10 @@ def run(ctx):
         else:
             ctx.violate("R1", f"Shell.{name} lacks validate_shape({', '.join(want[1])}) (found {vs})", relpath=sh.module.relpath, function=sh.qualname, construct=f"field {name} validator")
 
+    from .c07 import check_validate_shape
+
+    check_validate_shape(ctx, "R1")
+
     # ------------------------------------------------------------------ R2
     ctx.rule("R2", "generalized orbitals refuse spin-resolved access", "two-component orbitals silently return a meaningless alpha/beta slice")
     guarded = [f"{a}{s}" for a in SPIN_ATTRS for s in "ab"] + ["spinpol"]
